@@ -363,7 +363,43 @@ class SpecEval:
             return V.mk_int(0)
         r = fold_app(self.ex, name, lst, self.st)
         self.facts.append(z3.Implies(V.list_len(lst) == 0, r.t == 0))
+        seen = getattr(self.ex, "fold_seen", None)
+        if seen is not None:
+            seen.setdefault(name, {})["|".join(p.sexpr() for p in lst.parts)] = lst
+        n = V.list_len(lst)
+        if name in S.FOLD_BOUNDS:      # sum of terms within [lo, hi] (side condition proved in props/lemmas.py)
+            lo, hi = S.FOLD_BOUNDS[name]
+            self.facts.append(z3.Implies(n >= 0, z3.And(lo * n <= r.t, r.t <= hi * n)))
+        for a, b in S.FOLD_LE:         # pointwise <= lifts to sums
+            if a == name:
+                self.facts.append(r.t <= fold_app(self.ex, b, lst, self.st).t)
+            elif b == name:
+                self.facts.append(fold_app(self.ex, a, lst, self.st).t <= r.t)
         return r
+
+    def fn_nameset(self, node):
+        """nameset(L): the set of .name of the elements of list L (deterministic in L and the name map)."""
+        lst = O.strip_opt(self.ev(node.args[0]))
+        if V.is_empty_literal(lst):
+            return V.empty_set(T.NAME)
+        return nameset_app(self.ex, lst, self.st, self.facts)
+
+    def fn_card_in(self, node):
+        """card_in(S, C) = |S intersect C| ; exact facts are emitted when S grows by set.add (see card_in_facts_add)."""
+        s_, c_ = self.ev(node.args[0]), self.ev(node.args[1])
+        if V.is_empty_literal(s_) or V.is_empty_literal(c_):
+            return V.mk_int(0)
+        r = card_in_app(s_, c_)
+        (es,) = s_.ty.elem.sorts()
+        self.facts.extend(O.facts_for_card(c_))
+        self.facts.append(r >= 0)
+        self.facts.append(r <= V.set_card(c_))
+        self.facts.append(z3.Implies(s_.t == z3.K(es, z3.BoolVal(False)), r == 0))
+        self.facts.append(z3.Implies(O.set_subset(c_, s_), r == V.set_card(c_)))
+        seen = getattr(self.ex, "card_in_seen", None)
+        if seen is not None:
+            seen[c_.t.sexpr()] = c_
+        return V.mk_int(r)
 
     def fn_sel(self, node):
         """sel(set_or_dict, key) -> membership bool (alias of `in`)."""
@@ -372,6 +408,51 @@ class SpecEval:
 
 _ufs = {}
 _fold_fns = {}
+_misc_fns = {}
+
+
+def nameset_app(ex, lst, st, facts):
+    if lst.ty.elem.kind != "ref":
+        raise UnsupportedError("nameset() of a list of non-objects")
+    rec, fty = S.lookup_field(lst.ty.elem.name, "name")
+    if rec is None or fty.kind != "name":
+        raise UnsupportedError("nameset(): elements have no Name-typed field `name`")
+    (harr,) = st.heap.key_arrays(rec, "name", fty)
+    parts = list(lst.parts) + [harr]
+    key = ("nameset", tuple(p.sort().sexpr() for p in parts))
+    if key not in _misc_fns:
+        _misc_fns[key] = z3.Function(f"nameset_{len(_misc_fns)}", *([p.sort() for p in parts] + [z3.ArraySort(T.NameSort, z3.BoolSort())]))
+    r = Val(T.SetT(T.NAME), [_misc_fns[key](*parts)])
+    n = V.list_len(lst)
+    i, j = z3.Int(V.fresh_name("qi")), z3.Int(V.fresh_name("qj"))
+    x = z3.Const(V.fresh_name("qx"), T.NameSort)
+    idx = z3.Function(V.fresh_name("ns_idx"), T.NameSort, z3.IntSort())
+    nm = lambda k: z3.Select(harr, V.list_get(lst, k).t)
+    facts.append(z3.ForAll([i], z3.Implies(z3.And(0 <= i, i < n), z3.Select(r.t, nm(i)))))
+    facts.append(z3.ForAll([x], z3.Implies(z3.Select(r.t, x), z3.And(0 <= idx(x), idx(x) < n, nm(idx(x)) == x))))
+    facts.extend(O.facts_for_card(r))
+    facts.append(V.set_card(r) <= n)
+    # pigeonhole (finite-set lemma schema): pairwise distinct names => as many names as elements
+    facts.append(z3.Implies(z3.ForAll([i, j], z3.Implies(z3.And(0 <= i, i < j, j < n), nm(i) != nm(j))), V.set_card(r) == n))
+    return r
+
+
+def card_in_app(s_, c_):
+    key = ("card_in", s_.t.sort().sexpr())
+    if key not in _misc_fns:
+        _misc_fns[key] = z3.Function(f"card_in_{len(_misc_fns)}", s_.t.sort(), c_.t.sort(), z3.IntSort())
+    return _misc_fns[key](s_.t, c_.t)
+
+
+def card_in_facts_add(ex, old, new, x):
+    """new = old + {x}: |new & C| = |old & C| + [x in C and x not in old] for every C seen in card_in(., C)."""
+    out = []
+    for c_ in getattr(ex, "card_in_seen", {}).values():
+        if c_.ty != new.ty or V.is_empty_literal(old):
+            continue
+        out.append(card_in_app(new, c_) == card_in_app(old, c_) + z3.If(z3.And(z3.Select(c_.t, x.t), z3.Not(z3.Select(old.t, x.t))), 1, 0))
+    return out
+
 
 
 def fold_app(ex, name, lst, st):
@@ -419,6 +500,37 @@ def fold_facts_append(ex, old, new, x, st):
             if not V.is_empty_literal(old):
                 out.append(z3.Implies(V.list_len(old) == 0, prev == 0))
             out.append(fold_app(ex, name, new, st).t == prev + t.t)
+    return out
+
+
+def fold_facts_point_update(ex, rec, field, ref, pre, post):
+    """Point-update lemma (proved once by induction, see props/lemmas.py: lemma_fold_point_update):
+    for a list L of pairwise distinct references, writing field `field` of `ref` changes fold(L) by
+    term_post(ref) - term_pre(ref) if ref occurs in L, and not at all otherwise."""
+    out = []
+    key = S.fkey(rec, field)
+    for name, lists in getattr(ex, "fold_seen", {}).items():
+        elem, term, rty = S.FOLDS[name]
+        if elem.kind != "ref":
+            continue
+        tree = S.parse_clause(term)
+        attrs = {n.attr for n in ast.walk(tree) if isinstance(n, ast.Attribute) and isinstance(n.value, ast.Name) and n.value.id == "x"}
+        if not any(S.fkey(*S.lookup_field(elem.name, a)[:1], a) == key for a in attrs if S.lookup_field(elem.name, a)[0] is not None):
+            continue
+        for lst in lists.values():
+            facts = []
+            x = Val(elem, [ref])
+            t0 = fold_term(ex, name, x, pre, facts)
+            t1 = fold_term(ex, name, x, post, facts)
+            f0 = fold_app(ex, name, lst, pre).t
+            f1 = fold_app(ex, name, lst, post).t
+            n = V.list_len(lst)
+            i, j = z3.Int(V.fresh_name("qi")), z3.Int(V.fresh_name("qj"))
+            distinct = z3.ForAll([i, j], z3.Implies(z3.And(0 <= i, i < j, j < n), V.list_get(lst, i).t != V.list_get(lst, j).t))
+            inlist = z3.Exists([i], z3.And(0 <= i, i < n, V.list_get(lst, i).t == ref))
+            out.extend(facts)
+            out.append(z3.Implies(z3.And(distinct, inlist), f1 == f0 - t0.t + t1.t))
+            out.append(z3.Implies(z3.Not(inlist), f1 == f0))
     return out
 
 
@@ -537,8 +649,12 @@ def pure_method(recv, name, args, facts):
             return V.mk_bool(z3.Not(O.truth(r)))
         return O.set_binop(name, recv, other, facts)
     if k == "dict" and name == "get":
-        key = O.coerce(args[0], recv.ty.args[0])
-        present = V.dict_has(recv, key)
+        rawkey = args[0]
+        key_none = O.is_none(rawkey)
+        if rawkey.ty.kind == "none":
+            return args[1] if len(args) > 1 else V.NONE
+        key = O.coerce(O.strip_opt(rawkey), recv.ty.args[0])
+        present = z3.And(z3.Not(key_none), V.dict_has(recv, key))
         val = V.dict_get(recv, key)
         default = args[1] if len(args) > 1 else V.NONE
         a, b = V.unify(val, default)
